@@ -1,6 +1,6 @@
 (* C19 - Structured (qsub) compilation preserves meaning and resource counts.  Model: coq/model/Qsub.v. *)
 From Coq Require Import List Arith Bool.
-From QPM Require Import Qsub.
+From QPM Require Import Qsub QsubRec.
 Import ListNotations.
 
 (* the auxiliary qubits a sub-routine receives are never qubits that are live in an enclosing call: for every
@@ -31,6 +31,22 @@ Print Assumptions auxiliary_qubits_never_alias_live_qubits.
 Print Assumptions a_call_is_an_instance_of_the_callee_circuit.
 Print Assumptions gate_count_evaluator_is_exact.
 Print Assumptions aux_qubit_count_evaluator_is_exact.
+
+(* recursion detection (call targets are arbitrary table indices here, so cyclic programs are expressible): with
+   fuel above the number of subs the evaluation never runs out - every program is either rejected or evaluated
+   completely - and a completed evaluation is the unchecked hierarchical evaluation; self and mutual recursion are
+   rejected *)
+Theorem every_program_is_rejected_or_evaluated_completely : forall P f i acts idx stack,
+  NoDup stack -> (forall j, In j stack -> j < length P) -> length P - length stack < f ->
+  hchk f P i acts idx stack <> Fuel.
+Proof. exact evaluation_never_runs_out_of_fuel. Qed.
+Theorem a_completed_evaluation_is_the_hierarchical_evaluation : forall P f i acts idx stack gs,
+  hchk f P i acts idx stack = Ok gs -> heval f P i acts idx = gs.
+Proof. exact completed_evaluation_is_heval. Qed.
+Theorem recursive_programs_are_rejected :
+  hchk 5 [mkSub 1 0 [IP 0 [0]; IC 0 [0]]] 0 [0] 1 [] = Rec /\
+  hchk 5 [mkSub 1 0 [IC 1 [0]]; mkSub 1 0 [IP 0 [0]; IC 0 [0]]] 0 [0] 1 [] = Rec.
+Proof. split; reflexivity. Qed.
 
 (* non-vacuity: entry sub with one aux qubit calls W (one aux) twice, the second time through V (one aux):
    the diamond of the aux-count evaluator *)
